@@ -222,7 +222,41 @@ func preserved(before, after []byte) bool {
 	return true
 }
 
+// exec runs one history. Maintain() contains a single drain() call that gives up after 1ms of REAL
+// time; on a loaded machine that can leave part of the queue behind. That is a wall-clock artefact, not
+// a behaviour of interest, so such an execution is discarded and repeated (counted).
 func exec(r *ev.Run, nIDs int, h []event) (string, string, *seqx.Failure) {
+	for try := 0; ; try++ {
+		c, o, f, again := exec1(r, nIDs, h)
+		if !again {
+			return c, o, f
+		}
+		r.Add("reruns_after_realtime_drain_cutoff", 1)
+		if try > 50 {
+			ev.Harness("drain() keeps hitting its 1ms real-time cut-off")
+		}
+	}
+}
+
+var dumpMu sync.Mutex
+var dumpF *os.File
+
+func exec1(r *ev.Run, nIDs int, h []event) (string, string, *seqx.Failure, bool) {
+	c, o, f, again := exec2(r, nIDs, h)
+	if dumpF != nil && !again {
+		dumpMu.Lock()
+		fmt.Fprintf(dumpF, "%v\t%s\t%s\n", h, o, c)
+		dumpMu.Unlock()
+	}
+	return c, o, f, again
+}
+
+func exec2(r *ev.Run, nIDs int, h []event) (canon string, outcome string, fail *seqx.Failure, again bool) {
+	c, o, f := exec3(r, nIDs, h, &again)
+	return c, o, f, again
+}
+
+func exec3(r *ev.Run, nIDs int, h []event, again *bool) (string, string, *seqx.Failure) {
 	s := build()
 	defer s.c.Stop()
 	m := &model{tr: make([]traceModel, nIDs), capOf: map[any]uint{}, filled: map[any]bool{}}
@@ -302,6 +336,10 @@ func exec(r *ev.Run, nIDs int, h []event) (string, string, *seqx.Failure) {
 			}
 		case "maintain":
 			s.ctl.Maintain()
+			if s.ctl.Snapshot().Queued > 0 {
+				*again = true
+				return "", "", nil
+			}
 		case "resizeK", "resizeD":
 			if e.Op == "resizeK" {
 				m.k = 1 - m.k
@@ -494,6 +532,9 @@ func enabled(nIDs int, h []event) []event {
 
 func main() {
 	r := ev.New("C31", "model_checking")
+	if p := os.Getenv("VERIF_DUMP"); p != "" {
+		dumpF, _ = os.Create(p)
+	}
 	if p := os.Getenv("VERIF_PROF"); p != "" {
 		f, _ := os.Create(p)
 		pprof.StartCPUProfile(f)
